@@ -37,12 +37,14 @@ def input_files():
     for pat in ['*.go', 'go.mod', 'go.sum', 'ordering/*.go', 'internal/**/*.go', 'cmd/protoc-gen-gorums/**/*.go']:
         files += glob.glob(os.path.join(REPO, pat), recursive=True)
     files = [f for f in files if not f.endswith('_test.go')]
+    files += glob.glob(os.path.join(REPO, 'tests/*/*.pb.go')) + glob.glob(os.path.join(REPO, 'benchmark/*.pb.go'))
     sims = []
-    for root, dirs, fs in os.walk(SIM):
-        dirs[:] = [d for d in dirs if d not in ('zsvc',)]
-        for f in fs:
-            if f.endswith(('.go', '.mod', '.sum', '.py')):
-                sims.append(os.path.join(root, f))
+    for base in (SIM, os.path.join(VERIF, 'gen16')):
+        for root, dirs, fs in os.walk(base):
+            dirs[:] = [d for d in dirs if d not in ('zsvc',)]
+            for f in fs:
+                if f.endswith(('.go', '.mod', '.sum', '.py')):
+                    sims.append(os.path.join(root, f))
     return sorted(set(files)), sorted(sims)
 
 
@@ -55,7 +57,7 @@ def tree_hash():
         h.update(b'\0')
     hr = h.hexdigest()[:16]
     for f in sim_files:
-        h.update(os.path.relpath(f, SIM).encode() + b'\0')
+        h.update(os.path.relpath(f, VERIF).encode() + b'\0')
         h.update(open(f, 'rb').read())
         h.update(b'\0')
     h.update(REPO.encode())
@@ -648,6 +650,93 @@ def replay_race(path):
     return 1 if seen else 0
 
 
+# ----------------------------------------------------------------- C16: generator determinism
+
+def run_gen_check(prop, tier, seed):
+    t0 = time.time()
+    pr = profiles.PROFILES[prop]
+    th, _ = tree_hash()
+    bdir = os.path.join(BUILD_ROOT, th)
+    os.makedirs(bdir, exist_ok=True)
+    env = goenv()
+    g = os.path.join(bdir, 'gen16')
+    binary = os.path.join(g, 'gen16.bin')
+    try:
+        if not os.path.exists(binary):
+            if os.path.exists(g):
+                shutil.rmtree(g)
+            shutil.copytree(os.path.join(VERIF, 'gen16'), g)
+            gm = open(os.path.join(g, 'go.mod')).read()
+            gm = re.sub(r'replace github.com/relab/gorums => .*', 'replace github.com/relab/gorums => ' + REPO, gm)
+            open(os.path.join(g, 'go.mod'), 'w').write(gm)
+            shutil.copy(os.path.join(REPO, 'go.sum'), os.path.join(g, 'go.sum'))
+            # the instrumenter, built with the repository's own toolchain (its export data must be readable)
+            idir = os.path.join(g, 'instr')
+            os.makedirs(idir)
+            shutil.copy(os.path.join(SIM, 'cmd/instrument/main.go'), idir)
+            open(os.path.join(idir, 'go.mod'), 'w').write('module instr\n\ngo 1.22\n')
+            rc, out = sh([GO_OLD, 'build', '-o', os.path.join(g, 'instrument'), '.'], cwd=idir, env=env)
+            if rc != 0:
+                raise BuildError('building the instrumenter failed:\n' + out)
+            os.makedirs(os.path.join(g, 'inst'))
+            rc, out = sh([os.path.join(g, 'instrument'), '-src', os.path.join(REPO, 'cmd/protoc-gen-gorums/gengorums'), '-out', os.path.join(g, 'inst'),
+                          '-overlay', os.path.join(g, 'overlay.json'), '-go', GO_OLD, '-mode', 'MAPS', '-rt', 'gen16/maporder', '-skip-pb=false'], cwd=g, env=env)
+            if rc != 0:
+                raise BuildError('instrumenting the generator failed:\n' + out)
+            rc, out = sh([GO_OLD, 'build', '-overlay', os.path.join(g, 'overlay.json'), '-o', binary, './cmd/gen16'], cwd=g, env=env)
+            if rc != 0:
+                raise BuildError('compiling the generator harness failed:\n' + out)
+    except BuildError as e:
+        die(2, 'BUILD-ERROR\n' + str(e))
+    nseeds = pr[tier]['runs']
+    variants = pr[tier].get('variants', 6)
+    emit = os.path.join(g, 'out')
+    shutil.rmtree(emit, ignore_errors=True)
+    p = subprocess.run([binary, '-seed0', str(seed), '-seeds', str(nseeds), '-variants', str(variants), '-emit', emit], stdout=subprocess.PIPE, stderr=subprocess.PIPE, text=True, env=env, cwd=g, timeout=3600)
+    try:
+        res = json.loads(p.stdout.strip().splitlines()[-1])
+    except Exception:
+        die(2, 'generator harness failed (rc=%d):\n%s\n%s' % (p.returncode, p.stdout[-2000:], p.stderr[-2000:]))
+    known, _ = load_known()
+    reported, known_seen = [], {}
+    os.makedirs(os.path.join(VERIF, 'replays'), exist_ok=True)
+    viols = list(res.get('violations') or [])
+    # by-product: what the plugin emits for the (variant) zorums inputs must compile
+    compiled = 0
+    pb = open(os.path.join(REPO, 'cmd/protoc-gen-gorums/dev/zorums.pb.go')).read()
+    pb = re.sub(r'(?m)^package \w+$', 'package x', pb)
+    for d in sorted(glob.glob(os.path.join(emit, 'v*'))):
+        open(os.path.join(d, 'zorums.pb.go'), 'w').write(pb)
+        rc, out = sh([GO_OLD, 'build', './' + os.path.relpath(d, g)], cwd=g, env=env)
+        compiled += 1
+        if rc != 0:
+            viols.append(dict(Rule='emits-code-that-does-not-compile', Key='zorums-variant', Input=open(os.path.join(d, 'INPUT.txt')).read(), Seed=0, Detail=out[:1500]))
+    for v in viols:
+        vv = dict(Property=prop, Rule=v['Rule'], Key=v['Key'])
+        k = is_known(vv, known)
+        if k:
+            known_seen[v['Rule'] + '/' + v['Key']] = known_seen.get(v['Rule'] + '/' + v['Key'], 0) + 1
+            print('KNOWN-FINDING: property=%s rule=%s key=%s %s' % (prop, v['Rule'], v['Key'], k['text']))
+            continue
+XX, Input=v['Input'], Seed=v['Seed'], TreeHash=th), open(path, 'w'), indent=1)
+        print('VIOLATION property=%s replay=%s' % (prop, path))
+        print('  rule=%s key=%s input=%s seed=%s: %s' % (v['Rule'], v['Key'], v['Input'][:80], v['Seed'], v['Detail'][:600]))
+        reported.append(v)
+    wall = time.time() - t0
+    ev = dict(property_id=prop, tier=tier, seed=seed, level='exploration', wall_s=round(wall, 2), violations=len(reported),
+              assumptions=['the only source of nondeterminism of the (single-threaded, I/O-free) generator is Go map iteration order; it is put behind a seam by rewriting every range over a map in package gengorums',
+                           'only the determinism clause and the compile by-product are claimed (DESIGN.md 5/C16)'],
+              coverage=dict(evaluations=res['evaluations'], distinct_nontrivial=res['distinct_nontrivial'],
+                            rule='one evaluation = one in-process generation of one plugin request under one seed = one assignment of iteration orders to all map ranges of the generator; distinct non-trivial = distinct order signatures in which at least one map range was actually permuted. The response (file names, order, contents) is compared byte for byte with the canonical-order response.',
+                            samples=res.get('samples') or [dict(inputs=res['inputs'])], exhaustive=False, inputs=res['inputs'], map_ranges_executed=res['map_ranges_total'],
+                            variant_outputs_compiled=compiled, known_findings_seen=known_seen, runs_per_hour=int(res['evaluations'] / wall * 3600) if wall > 0 else 0, tree_hash=th,
+                            components_real=['cmd/protoc-gen-gorums/gengorums (all templates, instrumented copy: map ranges only)', 'google.golang.org/protobuf/compiler/protogen'],
+                            components_stub=['protoc (requests are built from the descriptors embedded in the committed *.pb.go files and descriptor-level variants)', 'Go map iteration order (maporder seam)']))
+    write_evidence(prop, ev)
+    print('%s %s: %d generations over %d inputs, %d distinct non-trivial order assignments, %d variant outputs compiled, %.1f s wall' % (prop, tier, res['evaluations'], res['inputs'], res['distinct_nontrivial'], compiled, wall))
+    return 1 if reported else 0
+
+
 # ----------------------------------------------------------------- selftest
 
 def selftest(nseeds, profile='C01'):
@@ -739,6 +828,18 @@ def main(argv):
             mode = rf.get('Mode') or 'L2'
             if mode == 'L1race':
                 return replay_race(argv[1])
+            if mode == 'gen16':
+                th, _ = tree_hash()
+                g = os.path.join(BUILD_ROOT, th, 'gen16')
+                if not os.path.exists(os.path.join(g, 'gen16.bin')):
+                    die(2, 'run ./check C16 quick first (builds the generator harness for this tree)')
+                if rf['Rule'] != 'output-depends-on-map-order':
+                    print(rf['Detail'])
+                    return 1
+                p = subprocess.run([os.path.join(g, 'gen16.bin'), '-input', rf['Input'], '-seed', str(rf['Seed']), '-seeds', '1', '-variants', '0'], cwd=g, env=goenv(), stdout=subprocess.PIPE, text=True)
+                print(p.stdout[-3000:])
+                print('REPLAY-REPRODUCED' if p.returncode == 1 else 'REPLAY-NOT-REPRODUCED')
+                return 1 if p.returncode == 1 else 0
             bdir, binary, th = build(mode)
         except BuildError as e:
             die(2, 'BUILD-ERROR\n' + str(e))
